@@ -86,6 +86,7 @@ func upstreamFaults(run *lib.Run, w *world, root *lib.RNG, direct, viaUp *child)
 			add(ucase{child: viaUp, route: "upstream-connect", method: "CONNECT", host: h, class: "connect-rejected", exactRelay: code})
 			hm := fmt.Sprintf("reject%d%s.mitm.test:443", code, body)
 			add(ucase{child: viaUp, route: "upstream-mitm", method: "GET", host: hm, class: "connect-rejected", exactRelay: code})
+			add(ucase{child: viaUp, route: "upstream-mitm", method: "HEAD", host: hm, class: "connect-rejected", exactRelay: code})
 		}
 	}
 	for _, h := range []string{"cutreject.mitm.test:443", "cutrejectrst.mitm.test:443"} {
